@@ -50,3 +50,12 @@ def quad_of_value(v):
         return qtext(v)
     octs = [(v >> s) & 255 for s in (24, 16, 8, 0)]
     return quad_of_octets(octs)
+
+
+def toint(tok):
+    """numeric value of a numeral token: int for str, the atom's SymInt for symbolic text"""
+    if type(tok) is str:
+        return int(tok)
+    if type(tok) is SymStr and len(tok.parts) == 1 and type(tok.parts[0]) is Dec:
+        return tok.parts[0].v
+    raise ValueError(f"not a numeral: {tok!r}")
